@@ -51,13 +51,27 @@ def rhs(s, a, n):
 
 
 def _taylor_step(u, b, h):
-    """One Taylor step of u' = A u + b (b constant) of size h (nondimensional)."""
+    """One Taylor step of u' = A u + b (b constant) of size h (nondimensional), term by term."""
     term = (_A @ u + b) * h  # h * u'
     out = u + term
     for k in range(2, ORDER + 1):
         term = (_A @ term) * (h / k)  # h^k/k! * u^(k), since u^(k) = A u^(k-1) for k >= 2
         out = out + term
     return out
+
+
+def _step_operator(h):
+    """The same Taylor step written as an affine map u -> E u + F b (the equations are linear and autonomous, so the
+    map is the same for every sub-step of one segment): E = sum (hA)^k/k!, F = sum h^k A^(k-1)/k!, k <= ORDER."""
+    E = np.eye(6)
+    F = np.zeros((6, 6))
+    term = np.eye(6)  # (hA)^(k-1)/(k-1)! ... multiplied by h/k gives the F term
+    for k in range(1, ORDER + 1):
+        fk = term * (h / k)  # h^k A^(k-1) / k!
+        F = F + fk
+        term = _A @ fk  # (hA)^k / k!
+        E = E + term
+    return E, F
 
 
 def flow(s, dt, n, accel=None):
@@ -73,8 +87,10 @@ def flow(s, dt, n, accel=None):
     tau = n * dt
     m = max(1, int(math.ceil(abs(tau) / HMAX)))
     h = tau / m
+    E, F = _step_operator(h)
+    c = F @ b
     for _ in range(m):
-        u = _taylor_step(u, b, h)
+        u = E @ u + c
     return np.concatenate([u[:3], u[3:] * n])
 
 
@@ -190,6 +206,11 @@ def selftest():
         br = propagate(s0, 900.0, n, burns=[(100.0, 400.0, a)])
         assert np.max(np.abs(br - flow(flow(flow(s0, 100.0, n), 300.0, n, a), 500.0, n)) / scale) < 1e-13
         assert np.allclose(propagate(s0, 300.0, n, impulses=[(300.0, [0.1, 0, 0])])[3], mid[3])
+    # the affine step operator is the term-by-term Taylor step
+    u = np.array([1.0, -2.0, 0.5, 0.3, 0.7, -0.4])
+    b = np.array([0, 0, 0, 0.2, -0.1, 0.3])
+    E, F = _step_operator(0.11)
+    assert np.max(np.abs(E @ u + F @ b - _taylor_step(u, b, 0.11))) < 1e-15
     # permutation: T = S, N = -Q, W = W
     assert np.array_equal(P3, np.array([[0, 1, 0], [-1, 0, 0], [0, 0, 1]]))
     return worst
